@@ -393,7 +393,9 @@ def model_shapes(rng, idx: int, module: str) -> SdkModel:
     kind = mmg.Enumeration("Modelling_kind", [mmg.EnumLiteral("Template", "Template"),
                                                mmg.EnumLiteral("Instance", "Instance"),
                                                mmg.EnumLiteral("Odd_one", "odd \"one\" & <two>")])
-    level = mmg.Enumeration("Level_type", [mmg.EnumLiteral("Min", "Min"), mmg.EnumLiteral("Max", "Max")])
+    level = mmg.Enumeration("Level_type", [mmg.EnumLiteral("Min", "Min"), mmg.EnumLiteral("Max", "Max"),
+                                           mmg.EnumLiteral("Nom", "Nom"), mmg.EnumLiteral("Typ", "Typ"),
+                                           mmg.EnumLiteral("Not_applicable", "n/a")])
     mm.enumerations = [kind, level]
     cp = mmg.ConstrainedPrimitive("Short_text", "str")
     mm.constrained_primitives = [cp]
